@@ -168,41 +168,42 @@ def run(ctx):
         ctx.expect(same_period and same_grid, "R13.2", "NdInterpolator.interpolate[siblings share grid, target, period]",
                    "bracketing and weights are computed for the same grid, targets and period", nd_int.loc())
 
-    # ---- R13.3 corner sum
+    # ---- R13.3 corner sum (locals are identified by what they are, not by their names)
     di = p.get_method(ND, "_data_interpolator")
     it = Interp(p)
     rets = [n for n in ast.walk(di.node) if isinstance(n, ast.Return)]
+    roles = _interpolator_roles(di)
     env = Env(it, di, di.module)
-    env.vars.update({"weights_sum": P("wsum"), "interp_val": P("acc")})
-    if len(rets) != 1:
-        ctx.unsure("R13.3", "_data_interpolator[result]", "single return not found", di.loc())
+    if roles.get("wsum") and roles.get("acc"):
+        env.vars.update({roles["wsum"]: P("wsum"), roles["acc"]: P("acc")})
+    if len(rets) != 1 or not (roles.get("wsum") and roles.get("acc")):
+        ctx.unsure("R13.3", "_data_interpolator[result]", "single return / the two accumulators not found", di.loc())
     else:
         v = T.to_term(it.eval(rets[0].value, env))
         ctx.equiv("R13.3", "_data_interpolator[result]", v, op("where", CMP("gt", P("wsum"), sp.Rational(1, 2)), P("acc") / P("wsum"), T.NAN_T),
                   di.loc(rets[0]), "value = sum(w*v)/sum(w) where sum(w) > 0.5, else NaN", interp=it)
-    masks = [n for n in ast.walk(di.node) if isinstance(n, ast.Assign) and ast.unparse(n.targets[0]) == "mask"]
-    if len(masks) == 1:
+    masks = [n for n in ast.walk(di.node) if isinstance(n, ast.Assign) and roles.get("mask") and ast.unparse(n.targets[0]) == roles["mask"]]
+    if len(masks) == 1 and roles.get("val") and roles.get("w"):
         env2 = Env(it, di, di.module)
         me = Obj(p.get_class(ND), {}, "nd")
         me.fields["output_passive_coord_dim_indices"] = P("axes")
-        env2.vars.update({"val": P("val"), "intp_weight_nd": P("w"), "self": me})
+        env2.vars.update({roles["val"]: P("val"), roles["w"]: P("w"), "self": me})
         v = T.to_term(it.eval(masks[0].value, env2))
         want = AND(op("all", T.NOT(op("isnull", P("val"))), P("axes")), CMP("gt", P("w"), 0))
         ctx.equiv("R13.3", "_data_interpolator[corner mask]", v, want, di.loc(masks[0]),
                   "a corner contributes only if its data are not NaN and its weight is positive", interp=it)
     else:
         ctx.unsure("R13.3", "_data_interpolator[corner mask]", "mask assignment not found", di.loc())
-    augs = [n for n in ast.walk(di.node) if isinstance(n, ast.AugAssign) and isinstance(n.op, ast.Add)]
-    tw = [a for a in augs if ast.unparse(a.target).startswith("weights_sum[")]
-    tv = [a for a in augs if ast.unparse(a.target).startswith("interp_val[")]
-    okw = len(tw) == 1 and ast.unparse(tw[0].value).replace("\n", "") == "intp_weight_nd[self.output_indexing_broadcast(mask)]" \
-        and "self.output_indexing_full(mask)" in ast.unparse(tw[0].target)
-    okv = len(tv) == 1 and "self.output_indexing_full(mask)" in ast.unparse(tv[0].target)
+    tw, tv = roles.get("aug_w"), roles.get("aug_v")
+    flat = lambda e: ast.unparse(e).replace("\n", "").replace(" ", "")  # noqa: E731
+    wsel = f"{roles.get('w')}[self.output_indexing_broadcast({roles.get('mask')})]"
+    full = f"self.output_indexing_full({roles.get('mask')})"
+    okw = tw is not None and flat(tw.value) == wsel and full in flat(tw.target)
+    okv = tv is not None and full in flat(tv.target)
     if okv:
-        e = tv[0].value
-        okv = isinstance(e, ast.BinOp) and isinstance(e.op, ast.Mult) and {
-            ast.unparse(e.left).replace("\n", ""), ast.unparse(e.right).replace("\n", "")} == {
-            "intp_weight_nd[self.output_indexing_broadcast(mask)]", "val[self.output_indexing_full(mask)]"}
+        e = tv.value
+        okv = isinstance(e, ast.BinOp) and isinstance(e.op, ast.Mult) and {flat(e.left), flat(e.right)} == {
+            wsel, f"{roles.get('val')}[{full}]"}
     ctx.expect(okw and okv, "R13.3", "_data_interpolator[accumulation]",
                "sum(w) and sum(w*v) are accumulated over the same masked corners with the same weights", di.loc())
 
@@ -241,36 +242,48 @@ def run(ctx):
                    derived=str({str([T.show(x, 40) for x in k]): T.show(v, 80) for k, v in list(got.items())[:4]}))
         ctx.absorb(itc)
     gd = [c for c in calls(di.node) if ast.unparse(c.func) == "self.get_data"]
-    okg = len(gd) == 1 and [ast.unparse(a) for a in gd[0].args] == ["intp_indices_nd", "self.interp_coord_dim_indices"]
+    okg = len(gd) == 1 and [ast.unparse(a) for a in gd[0].args] == [roles.get("idx"), "self.interp_coord_dim_indices"]
     lp = [n for n in ast.walk(di.node) if isinstance(n, ast.For) and "_next_point" in ast.unparse(n.iter)]
-    okg = okg and len(lp) == 1 and ast.unparse(lp[0].iter).replace("\n", "").replace(" ", "") == "_next_point(self.interp_ndims,indices_1d,weights_1d)"
+    prm = di.params
+    okg = okg and len(lp) == 1 and len(prm) >= 4 and ast.unparse(lp[0].iter).replace("\n", "").replace(" ", "") == \
+        f"_next_point(self.interp_ndims,{prm[2]},{prm[3]})"
     ctx.expect(okg, "R13.3", "_data_interpolator[corner loop]",
                "the corner loop runs over all interpolated coordinates with the computed indices and weights, data fetched at the corner indices",
                di.loc())
 
     # ---- R13.4 dataset wiring
     fa = p.get_function(DSM + "interpolate_dataset_along_axis")
-    loop = [n for n in own_walk(fa.node) if isinstance(n, ast.For) and ast.unparse(n.iter) == "data_set"]
+    from .fc import returned_name, local_assignments
+    P_CV, P_DS, P_CN, P_PD, P_PC, P_NN = (fa.params + [None] * 6)[:6]     # parameters by position (renaming them is an API change)
+    R = returned_name(fa.node)
+    loop = [n for n in own_walk(fa.node) if isinstance(n, ast.For) and ast.unparse(n.iter) == P_DS and isinstance(n.target, ast.Name)]
     okpass = False
+    V = None
     for lp_ in loop:
         first = lp_.body[0]
-        if isinstance(first, ast.If) and "coordinate_name not in" in ast.unparse(first.test) and ".coords" in ast.unparse(first.test):
+        V = lp_.target.id
+        if isinstance(first, ast.If) and f"{P_CN} not in" in ast.unparse(first.test) and ".coords" in ast.unparse(first.test):
             body = [ast.unparse(s) for s in first.body]
-            okpass = any(b.replace(" ", "") == "return_data_set[variable]=data_set[variable]" for b in body) and body[-1] == "continue"
+            okpass = any(b.replace(" ", "") == f"{R}[{V}]={P_DS}[{V}]" for b in body) and body[-1] == "continue"
     ctx.expect(okpass, "R13.4", "interpolate_dataset_along_axis[pass-through]",
                "variables without the interpolated coordinate are copied unchanged", fa.loc())
-    tconv = [n for n in own_walk(fa.node) if isinstance(n, ast.If) and ast.unparse(n.test) in ("coordinate_name == 'time'",)]
-    okt = any("to_datetime64(coordinate_value)" in ast.unparse(s) for t in tconv for s in t.body)
+    tconv = [n for n in own_walk(fa.node) if isinstance(n, ast.If) and ast.unparse(n.test) in (f"{P_CN} == 'time'",)]
+    okt = any(f"to_datetime64({P_CV})" in ast.unparse(s) for t in tconv for s in t.body)
     ctx.expect(okt, "R13.4", "interpolate_dataset_along_axis[time targets]", "time targets are converted with to_datetime64", fa.loc())
     ndc = [c for c in calls(fa.node) if call_name(c) == "NdInterpolator"]
     if len(ndc) == 1:
         init = p.get_method(ND, "__init__")
         b = binding.bind_by_name(init, ndc[0], True) or {}
-        ok = ast.unparse(b.get("nearest_neighbour", ast.Constant(None))) == "nearest_neighbour" \
-            and ast.unparse(b.get("interp_index_coord_name", ast.Constant(None))) == "coordinate_name" \
-            and ast.unparse(b.get("data_period", ast.Constant(None))) == "period_data" \
-            and ast.unparse(b.get("data_discont", ast.Constant(None))) == "discont_data" \
-            and ast.unparse(b.get("data_periodic_coordinates", ast.Constant(None))) == "periodic_coordinates"
+        la_fa = local_assignments(fa.node)
+
+        def from_mapping(e, k):
+            """e is a local bound to element k of <periodic_data>[<loop variable>]"""
+            return isinstance(e, ast.Name) and any(d[0] == "unpack" and ast.unparse(d[1]) == f"{P_PD}[{V}]" and d[2] == k
+                                                   for d in la_fa.get(e.id, []))
+        ok = ast.unparse(b.get("nearest_neighbour", ast.Constant(None))) == P_NN \
+            and ast.unparse(b.get("interp_index_coord_name", ast.Constant(None))) == P_CN \
+            and from_mapping(b.get("data_period"), 0) and from_mapping(b.get("data_discont"), 1) \
+            and ast.unparse(b.get("data_periodic_coordinates", ast.Constant(None))) == P_PC
         ctx.expect(ok, "R13.4", "interpolate_dataset_along_axis[interpolator wiring]",
                    "nearest flag, coordinate name and periodic settings reach the interpolator's own parameters", fa.loc(ndc[0]),
                    derived=str({k: ast.unparse(v) for k, v in b.items()}))
@@ -280,15 +293,19 @@ def run(ctx):
     ac = [c for c in calls(fgd.node) if call_name(c) == "interpolate_dataset_along_axis"]
     if len(ac) == 1:
         b = binding.bind_by_name(fa, ac[0], False) or {}
-        ok = ast.unparse(b.get("nearest_neighbour", ast.Constant(None))) == "nearest_neighbour" \
-            and ast.unparse(b.get("coordinate_name", ast.Constant(None))) == "coordinate_name" \
-            and ast.unparse(b.get("coordinate_value", ast.Constant(None))) == "coordinate_value"
+        axis_loops = [n for n in own_walk(fgd.node) if isinstance(n, ast.For) and ac[0] in list(ast.walk(n)) and isinstance(n.target, ast.Tuple)
+                      and len(n.target.elts) == 2 and ast.unparse(n.iter) == f"{fgd.params[0]}.items()"]
+        ok = len(axis_loops) == 1
+        if ok:
+            kname, kval = (ast.unparse(e) for e in axis_loops[0].target.elts)
+            ok = ast.unparse(b.get("nearest_neighbour", ast.Constant(None))) == "nearest_neighbour" \
+                and ast.unparse(b.get("coordinate_name", ast.Constant(None))) == kname \
+                and ast.unparse(b.get("coordinate_value", ast.Constant(None))) == kval
         ctx.expect(ok, "R13.4", "interpolate_dataset_grid[per-axis call]",
                    "each axis is interpolated with its own name and targets, nearest flag forwarded", fgd.loc(ac[0]))
     else:
         ctx.unsure("R13.4", "interpolate_dataset_grid[per-axis call]", "per-axis call not found", fgd.loc())
 
-    # ---- R13.5 spectra
     GRIDI = DSM + "interpolate_dataset_grid"
     AXIS = DSM + "interpolate_dataset_along_axis"
     for cls in (CLS_1D, CLS_2D):
@@ -385,3 +402,32 @@ def run(ctx):
     ctx.require_count("R13.4", 4)
     ctx.require_count("R13.5", 14)
     ctx.require_count("R13.6", 10)
+
+
+def _interpolator_roles(di):
+    """names of the locals of a corner-sum interpolator, found by what they hold: the corner loop's (indices, weight)
+    targets, the data fetched at the corner, the mask built from it, and the two accumulators"""
+    roles = {}
+    lp = [n for n in ast.walk(di.node) if isinstance(n, ast.For) and "_next_point" in ast.unparse(n.iter)]
+    if len(lp) == 1 and isinstance(lp[0].target, ast.Tuple) and len(lp[0].target.elts) == 2 and all(
+            isinstance(e, ast.Name) for e in lp[0].target.elts):
+        roles["idx"], roles["w"] = lp[0].target.elts[0].id, lp[0].target.elts[1].id
+    for n in ast.walk(di.node):
+        if isinstance(n, ast.Assign) and len(n.targets) == 1 and isinstance(n.targets[0], ast.Name):
+            if any(isinstance(c, ast.Call) and ast.unparse(c.func) == "self.get_data" for c in ast.walk(n.value)):
+                roles["val"] = n.targets[0].id
+                roles["val_assign"] = n
+    for n in ast.walk(di.node):
+        if isinstance(n, ast.Assign) and len(n.targets) == 1 and isinstance(n.targets[0], ast.Name) and roles.get("val"):
+            if any(isinstance(c, ast.Call) and ast.unparse(c.func).endswith("isnan") and c.args and ast.unparse(c.args[0]) == roles["val"]
+                   for c in ast.walk(n.value)):
+                roles["mask"] = n.targets[0].id
+    augs = [n for n in ast.walk(di.node) if isinstance(n, ast.AugAssign) and isinstance(n.op, ast.Add) and isinstance(n.target, ast.Subscript)
+            and isinstance(n.target.value, ast.Name)]
+    for a in augs:
+        uses_val = roles.get("val") and any(isinstance(x, ast.Name) and x.id == roles["val"] for x in ast.walk(a.value))
+        if uses_val and "aug_v" not in roles:
+            roles["aug_v"], roles["acc"] = a, a.target.value.id
+        elif not uses_val and "aug_w" not in roles:
+            roles["aug_w"], roles["wsum"] = a, a.target.value.id
+    return roles
